@@ -72,36 +72,54 @@ var errCallback = errors.New("callback failed")
 type backend struct {
 	name    string
 	open    func(dir string) (db.KeyValueStore, error)
+	mk      func() func(dir string) (db.KeyValueStore, error) // opener bound to one fresh file system
 	wrap    string // "", "sync", "buffer"
 	isMem   bool
 	scratch bool
 }
 
+// v2memOpen / v1memOpen return an opener bound to ONE in-memory file system, so that closing and
+// opening again is a real restart (WAL replay) of the same database.
+func v2memOpen() func(string) (db.KeyValueStore, error) {
+	fs := vfsv2.NewMem()
+	return func(string) (db.KeyValueStore, error) {
+		return pebblev2.New("verif-mem", func(o *pebv2.Options) error { o.FS = fs; return nil })
+	}
+}
+
+func v1memOpen() func(string) (db.KeyValueStore, error) {
+	fs := vfsv1.NewMem()
+	return func(string) (db.KeyValueStore, error) {
+		return pebblev1.New("verif-mem", func(o *pebv1.Options) error { o.FS = fs; return nil })
+	}
+}
+
 func backends() []backend {
-	v2mem := func(string) (db.KeyValueStore, error) {
-		return pebblev2.New("verif-mem", func(o *pebv2.Options) error { o.FS = vfsv2.NewMem(); return nil })
+	v2mem, v1mem := v2memOpen, v1memOpen
+	v2disk := func() func(string) (db.KeyValueStore, error) {
+		return func(dir string) (db.KeyValueStore, error) { return pebblev2.New(dir) }
 	}
-	v1mem := func(string) (db.KeyValueStore, error) {
-		return pebblev1.New("verif-mem", func(o *pebv1.Options) error { o.FS = vfsv1.NewMem(); return nil })
+	mem := func() func(string) (db.KeyValueStore, error) {
+		return func(string) (db.KeyValueStore, error) { return memory.New(), nil }
 	}
-	v2disk := func(dir string) (db.KeyValueStore, error) { return pebblev2.New(dir) }
-	mem := func(string) (db.KeyValueStore, error) { return memory.New(), nil }
 	return []backend{
-		{name: "memory", open: mem, isMem: true},
-		{name: "pebblev2", open: v2mem},
-		{name: "pebble", open: v1mem},
-		{name: "memory+syncbatch", open: mem, wrap: "sync", isMem: true},
-		{name: "pebblev2+syncbatch", open: v2mem, wrap: "sync"},
-		{name: "memory+bufferbatch", open: mem, wrap: "buffer", isMem: true},
-		{name: "pebblev2+bufferbatch", open: v2mem, wrap: "buffer"},
-		{name: "pebblev2-disk", open: v2disk, scratch: true},
+		{name: "memory", mk: mem, isMem: true},
+		{name: "pebblev2", mk: v2mem},
+		{name: "pebble", mk: v1mem},
+		{name: "memory+syncbatch", mk: mem, wrap: "sync", isMem: true},
+		{name: "pebblev2+syncbatch", mk: v2mem, wrap: "sync"},
+		{name: "memory+bufferbatch", mk: mem, wrap: "buffer", isMem: true},
+		{name: "pebblev2+bufferbatch", mk: v2mem, wrap: "buffer"},
+		{name: "pebblev2-disk", mk: v2disk, scratch: true},
 	}
 }
 
 type replayer struct {
-	keys  [][]byte
-	store db.KeyValueStore
-	be    backend
+	keys   [][]byte
+	store  db.KeyValueStore
+	be     backend
+	opener func(dir string) (db.KeyValueStore, error)
+	dir    string
 
 	batch    db.IndexedBatch // possibly wrapped
 	plain    db.Batch
@@ -356,6 +374,27 @@ func (r *replayer) apply(a action) (res result, skip bool) {
 		err := r.it.Close()
 		r.it = nil
 		return okOrErr(err), false
+	case "Flush":
+		switch impl := r.store.Impl().(type) {
+		case *pebv2.DB:
+			return okOrErr(impl.Flush()), false
+		case *pebv1.DB:
+			return okOrErr(impl.Flush()), false
+		}
+		return result{Kind: "ok"}, false // db/memory has no write buffer
+	case "Reopen":
+		if r.be.isMem {
+			return result{Kind: "ok"}, false // db/memory is not persistent; a restart is not defined
+		}
+		if err := r.store.Close(); err != nil {
+			return okOrErr(err), false
+		}
+		st, err := r.opener(r.dir)
+		if err != nil {
+			return okOrErr(err), false
+		}
+		r.store = st
+		return result{Kind: "ok"}, false
 	}
 	return result{Kind: "unknown action " + a.Name}, false
 }
@@ -451,11 +490,12 @@ func TestKVReplay(t *testing.T) {
 				dir = filepath.Join(d, "db")
 				defer os.RemoveAll(d)
 			}
-			st, err := be.open(dir)
+			opener := be.mk()
+			st, err := opener(dir)
 			if err != nil {
 				t.Fatalf("open %s: %v", be.name, err)
 			}
-			r := &replayer{keys: keys, store: st, be: be}
+			r := &replayer{keys: keys, store: st, be: be, opener: opener, dir: dir}
 			for si, s := range beh {
 				obs, skip := r.apply(s.A)
 				if skip {
